@@ -853,6 +853,17 @@ func (ev *Eval) call(e *Expr) *Value {
 			ev.fail("implements(x, \"pkg.Iface\")")
 		}
 		return scalar(specBool, implementsTerm(x.L[0], ev.resolveType(e.Args[1].Name)))
+	case "as":
+		// as(x, "*T"): the pointer held by interface value x, typed *T (meaningful where typeof(x) == tagof("*T"))
+		x := ev.eval(e.Args[0])
+		if !isIface(x.T) || len(e.Args) != 2 || e.Args[1].Op != "str" {
+			ev.fail("as(x, \"*T\")")
+		}
+		t := ev.resolveType(e.Args[1].Name)
+		if _, ok := under(t).(*types.Pointer); !ok {
+			ev.fail("as: %s is not a pointer type", e.Args[1].Name)
+		}
+		return &Value{T: t, L: []*Term{x.L[1]}}
 	case "asString":
 		// the string held by an interface value (any) whose dynamic type is string
 		x := ev.eval(e.Args[0])
